@@ -102,6 +102,69 @@ Proof.
   - now rewrite SFmul_opp_l, SFmul_opp_r, SFopp_involutive.
   - simpl. now destruct s, t.
 Qed.
+
+(** congruences of the "opposite up to zero signs" relation *)
+Lemma SFsub_add_opp x y : SFsub prec emax x y = SFadd prec emax x (SFopp y).
+Proof.
+  destruct x as [[|]|[|]| |sx mx ex], y as [[|]|[|]| |sy my ey]; simpl; try reflexivity.
+  f_equal. destruct sy; simpl; lia.
+Qed.
+
+Lemma negrel_opp u v : negrel u v -> negrel (SFopp u) (SFopp v).
+Proof.
+  intros [->|[[s ->] [t ->]]]; [left; reflexivity | right; simpl; split; eauto with sf].
+Qed.
+
+Lemma SFmul_zero_l s t v : negrel (SFmul prec emax (S754_zero s) v) (SFmul prec emax (S754_zero t) v).
+Proof.
+  destruct v as [sv|sv| |sv mv ev]; simpl; try (left; reflexivity); right; split; eauto with sf.
+Qed.
+
+Lemma SFmul_negrel_l u u' v : negrel u u' -> negrel (SFmul prec emax u v) (SFmul prec emax u' v).
+Proof.
+  intros [->|[[s ->] [t ->]]]; [left; apply SFmul_opp_l | apply SFmul_zero_l].
+Qed.
+Lemma SFmul_negrel_r u v v' : negrel v v' -> negrel (SFmul prec emax u v) (SFmul prec emax u v').
+Proof. intros H. rewrite (SFmul_comm u v), (SFmul_comm u v'). now apply SFmul_negrel_l. Qed.
+
+Lemma cond_Zopp_negb s m : cond_Zopp (negb s) m = (- cond_Zopp s m)%Z.
+Proof. destruct s; simpl; lia. Qed.
+
+Lemma SFadd_opp_opp a b : negrel (SFadd prec emax (SFopp a) (SFopp b)) (SFadd prec emax a b).
+Proof.
+  destruct a as [[|]|[|]| |sa ma ea], b as [[|]|[|]| |sb mb eb]; simpl;
+  try (left; reflexivity); try (right; split; eauto with sf; fail).
+  rewrite !cond_Zopp_negb.
+  set (x := cond_Zopp sa (Z.pos (fst (shl_align ma ea (Z.min ea eb))))).
+  set (y := cond_Zopp sb (Z.pos (fst (shl_align mb eb (Z.min ea eb))))).
+  destruct (Z.eq_dec (x + y) 0) as [E|E].
+  - right. replace (- x + - y)%Z with 0%Z by lia. rewrite E. simpl. split; eauto with sf.
+  - left. replace (- x + - y)%Z with (- (x + y))%Z by lia. now apply binary_normalize_opp.
+Qed.
+
+Lemma SFadd_zero_negrel s t v : negrel (SFadd prec emax (S754_zero s) (SFopp v)) (SFadd prec emax (S754_zero t) v).
+Proof.
+  destruct v as [[|]|[|]| |sv mv ev], s, t; simpl; try (left; reflexivity); right; split; eauto with sf.
+Qed.
+Lemma SFadd_zero_zero s t s' t' : negrel (SFadd prec emax (S754_zero s) (S754_zero t)) (SFadd prec emax (S754_zero s') (S754_zero t')).
+Proof. destruct s, t, s', t'; simpl; right; split; eauto with sf. Qed.
+
+Lemma SFadd_negrel u u' v v' : negrel u u' -> negrel v v' ->
+  negrel (SFadd prec emax u v) (SFadd prec emax u' v').
+Proof.
+  intros [->|[[s ->] [t ->]]] [->|[[s' ->] [t' ->]]].
+  - apply SFadd_opp_opp.
+  - rewrite (SFadd_comm (SFopp u')), (SFadd_comm u').
+    replace (S754_zero t') with (SFopp (SFopp (S754_zero t'))) at 1 by apply SFopp_involutive.
+    simpl SFopp at 2.
+    destruct u' as [[|]|[|]| |su mu eu], s', t'; simpl; try (left; reflexivity); right; split; eauto with sf.
+  - apply SFadd_zero_negrel.
+  - apply SFadd_zero_zero.
+Qed.
+
+Lemma SFsub_negrel u u' v v' : negrel u u' -> negrel v v' ->
+  negrel (SFsub prec emax u v) (SFsub prec emax u' v').
+Proof. intros. rewrite !SFsub_add_opp. apply SFadd_negrel; auto using negrel_opp. Qed.
 End SF.
 
 (** * primitive floats *)
@@ -296,4 +359,89 @@ Theorem stable_reverse_dispatch a0 a1 b0 b1 : nnp a0 -> nnp a1 -> nnp b0 -> nnp 
 Proof.
   intros Na0 Na1 Nb0 Nb1. rewrite !stable_dispatch.
   destruct (first_is_b_reverse a0 a1 b0 b1 Na0 Na1 Nb0 Nb1) as [-> ->]. split; reflexivity.
+Qed.
+
+(** * opposite-up-to-zero-signs on floats and vectors *)
+Local Open Scope float_scope.
+Lemma fneg_zero : fneg 0 0.
+Proof. right. split; exists false; reflexivity. Qed.
+Lemma fmul_fneg_l u u' v : fneg u u' -> fneg (u * v) (u' * v).
+Proof. unfold fneg. rewrite !mul_spec. apply SFmul_negrel_l. Qed.
+Lemma fmul_fneg_r u v v' : fneg v v' -> fneg (u * v) (u * v').
+Proof. unfold fneg. rewrite !mul_spec. apply SFmul_negrel_r. Qed.
+Lemma fsub_fneg u u' v v' : fneg u u' -> fneg v v' -> fneg (u - v) (u' - v').
+Proof. unfold fneg. rewrite !sub_spec. apply SFsub_negrel. Qed.
+Lemma fadd_fneg u u' v v' : fneg u u' -> fneg v v' -> fneg (u + v) (u' + v').
+Proof. unfold fneg. rewrite !add_spec. apply SFadd_negrel. Qed.
+
+Definition fneg3 (v w : r3_Vector) : Prop :=
+  fneg (r3_Vector_X v) (r3_Vector_X w) /\ fneg (r3_Vector_Y v) (r3_Vector_Y w) /\ fneg (r3_Vector_Z v) (r3_Vector_Z w).
+
+Lemma sub_fneg3 v w : fneg3 (r3_Vector_Sub w v) (r3_Vector_Sub v w).
+Proof. destruct v, w. repeat split; apply fsub_anti. Qed.
+
+Lemma cross_fneg3_l u u' w : fneg3 u u' -> fneg3 (r3_Vector_Cross u w) (r3_Vector_Cross u' w).
+Proof.
+  destruct u, u', w. unfold fneg3, r3_Vector_Cross. simpl. intros (Hx & Hy & Hz).
+  repeat split; apply fsub_fneg; now apply fmul_fneg_l.
+Qed.
+
+Lemma mul_fneg3 u u' m : fneg3 u u' -> fneg3 (r3_Vector_Mul u m) (r3_Vector_Mul u' m).
+Proof.
+  destruct u, u'. unfold fneg3, r3_Vector_Mul. simpl. intros (Hx & Hy & Hz).
+  repeat split; now apply fmul_fneg_r.
+Qed.
+
+Lemma norm2_fneg3 u u' : fneg3 u u' -> r3_Vector_Norm2 u = r3_Vector_Norm2 u'.
+Proof.
+  destruct u, u'. unfold fneg3, r3_Vector_Norm2, r3_Vector_Dot. simpl. intros (Hx & Hy & Hz).
+  now rewrite (fsq_fneg _ _ Hx), (fsq_fneg _ _ Hy), (fsq_fneg _ _ Hz).
+Qed.
+Lemma norm_fneg3 u u' : fneg3 u u' -> r3_Vector_Norm u = r3_Vector_Norm u'.
+Proof.
+  intros H. unfold r3_Vector_Norm. change (r3_Vector_Dot ?a ?a) with (r3_Vector_Norm2 a).
+  now rewrite (norm2_fneg3 _ _ H).
+Qed.
+
+Lemma fneg3_zero : fneg3 (mk_r3_Vector 0 0 0) (mk_r3_Vector 0 0 0).
+Proof. repeat split; apply fneg_zero. Qed.
+
+(** cross_anti for the stable normal: (y - x) x (y + x) is the opposite of (x - y) x (x + y) *)
+Theorem stable_normal_anti x y :
+  fneg3 (r3_Vector_Cross (r3_Vector_Sub y x) (r3_Vector_Add y x))
+        (r3_Vector_Cross (r3_Vector_Sub x y) (r3_Vector_Add x y)).
+Proof. rewrite (add_comm3 y x). apply cross_fneg3_l, sub_fneg3. Qed.
+
+(** robustNormalWithLength: same length bit for bit, opposite normal, for ALL float inputs *)
+Theorem robustNormalWithLength_antisym x y :
+  snd (s2_robustNormalWithLength y x) = snd (s2_robustNormalWithLength x y) /\
+  fneg3 (fst (s2_robustNormalWithLength y x)) (fst (s2_robustNormalWithLength x y)).
+Proof.
+  unfold s2_robustNormalWithLength. cbv zeta.
+  pose proof (stable_normal_anti x y) as H.
+  rewrite (norm_fneg3 _ _ H). simpl. split; [reflexivity|].
+  destruct (negb _); [now apply mul_fneg3 | apply fneg3_zero].
+Qed.
+
+(** intersectionStableSorted with the interpolated edge reversed: same accept/reject decision,
+    opposite point (the sign is repaired by Intersection), for ALL float inputs *)
+Theorem sorted_reverse_second a0 a1 b0 b1 :
+  snd (s2_intersectionStableSorted a0 a1 b1 b0) = snd (s2_intersectionStableSorted a0 a1 b0 b1) /\
+  fneg3 (s2_Point_Vector (fst (s2_intersectionStableSorted a0 a1 b1 b0)))
+        (s2_Point_Vector (fst (s2_intersectionStableSorted a0 a1 b0 b1))).
+Proof.
+  unfold s2_intersectionStableSorted. cbv zeta.
+  set (aNorm := r3_Vector_Cross _ _).
+  destruct (s2_projection (s2_Point_Vector b0) aNorm (r3_Vector_Norm aNorm) a0 a1) as [d0 e0].
+  destruct (s2_projection (s2_Point_Vector b1) aNorm (r3_Vector_Norm aNorm) a0 a1) as [d1 e1].
+  rewrite (fabs_sub_swap d1 d0), (fadd_comm e1 e0).
+  destruct (PrimFloat.leb _ _); [simpl; split; [reflexivity | apply fneg3_zero]|].
+  set (x := r3_Vector_Sub (r3_Vector_Mul (s2_Point_Vector b1) d0) (r3_Vector_Mul (s2_Point_Vector b0) d1)).
+  set (x' := r3_Vector_Sub (r3_Vector_Mul (s2_Point_Vector b0) d1) (r3_Vector_Mul (s2_Point_Vector b1) d0)).
+  assert (Hx : fneg3 x' x) by apply sub_fneg3.
+  rewrite (norm2_fneg3 _ _ Hx), (norm_fneg3 _ _ Hx).
+  rewrite (norm_sub_swap (s2_Point_Vector b0) (s2_Point_Vector b1)).
+  rewrite (fabs_sub_swap (d1 * e0) (d0 * e1)).
+  destruct (PrimFloat.ltb (r3_Vector_Norm2 x) _); [simpl; split; [reflexivity | apply fneg3_zero]|].
+  destruct (PrimFloat.ltb _ _); simpl; (split; [reflexivity|]); [apply fneg3_zero | now apply mul_fneg3].
 Qed.
